@@ -11,8 +11,20 @@ COMMON_ASSUMPTIONS = [
     "the SSA->SMT executor itself is trusted; it is validated by replaying solver witnesses natively on every run",
 ]
 
+NOTES = ("All checks: bin/check <ID> quick|thorough. Exit 0 = held within the stated bounds (listed known findings are printed as "
+         "KNOWN-FINDING), 1 = natively reproduced violation not listed in known_findings.json, 2 = inconclusive (unsupported construct, "
+         "solver unknown, unwinding bound exceeded, engine/native mismatch).")
+
+NOT_APPLICABLE = {}
+
 CHECKS = {
     "C11": {
+        "level_text": "Every path of the real reply builders (SuccessResponse, SuccessResponseWithResource, FailureResponse, Message.Notification, "
+                      "FailedNotification, both AutoReplyPings handlers) and of the real codec round trip of the built reply is executed symbolically "
+                      "with symbolic ids, node addresses, methods, events, reasons and resource documents; each assertion is an SMT verdict over all "
+                      "values within the string-capacity bound.",
+        "level_note": "Trusted: the SSA->SMT executor, the encoding/json dispatch model, z3. Bounds: string capacity 2 (quick) / 4 (thorough), 7-bit bytes, "
+                      "resource documents of depth 1.",
         "runs": [
             {"harness": "HarnessC11Response", "grid": {"builder": [0, 1, 2]}, "params": {"cap": 2},
              "reach": ["c11:response-built"], "tier": "quick"},
